@@ -225,26 +225,11 @@ BUILTINS["__index__"] = c_index
 BUILTINS["__u8__"] = lambda ex, st, a, k, n, s: a[0] % 256
 
 
-class CArrT(_T):
-    def __init__(self, name):
-        self.name = name
+from pyvc.api import CArrT as _CArrT
 
 
-_orig_mk = api.mk
-
-
-def _mk(t, name, inv):
-    if isinstance(t, CArrT):
-        arr = fresh(name + ".arr", AII)
-        n = fresh(name + ".buflen", I)
-        k = z3.Int(f"k!{name}")
-        inv.append(n >= 0)
-        inv.append(z3.ForAll([k], z3.And(0 <= arr[k], arr[k] <= 255)))
-        return CArr(arr, n, None, t.name)
-    return _orig_mk(t, name, inv)
-
-
-api.mk = _mk
+def CArrT(name):
+    return _CArrT(name, byte=True)
 
 
 def ee_globals(name, cx):
